@@ -1,0 +1,84 @@
+//go:build verif
+
+// Contracts for package runtime, read by the verifier in /verif (govc). This file contains comments only:
+// with the build tag off (and on) the package compiles to exactly the same code.
+//
+// Contract integers in "mode bv" functions are 64-bit vectors with Go's wrap-around semantics.
+// VarintLen, VarintByte, ZigZag64/32, VarintEnd, VarintVal are the wire-format spec functions (DESIGN.md, Appendix A).
+
+package runtime
+
+//@ func Sov
+//@   property C15
+//@   mode bv
+//@   ensures[varint-size] n == VarintLen(x)
+//@   ensures[range] 1 <= n && n <= 10
+
+//@ func Soz
+//@   property C15
+//@   mode bv
+//@   ensures[zigzag-size] n == VarintLen(ZigZag64(x))
+
+//@ lemma soz-sint32 (s:int32) mode bv property C15: ZigZag64(uint64(int64(s))) == uint64(ZigZag32(uint32(s)))
+
+//@ extern google.golang.org/protobuf/encoding/protowire.SizeVarint
+//@   property C15
+//@   verify-body
+//@   mode bv
+//@   ensures[protowire-size] result == VarintLen(v)
+
+//@ extern google.golang.org/protobuf/encoding/protowire.EncodeZigZag
+//@   property C15
+//@   verify-body
+//@   mode bv
+//@   ensures[protowire-zigzag] result == ZigZag64(uint64(x))
+
+//@ func EncodeVarint
+//@   property C15
+//@   mode bv
+//@   requires[room] VarintLen(v) <= offset && offset <= len(dAtA)
+//@   loop 1: unroll 10
+//@   ensures[result] result == offset - VarintLen(v)
+//@   ensures[bytes] forall j in [result, offset): dAtA[j] == VarintByte(v, j - result)
+//@   ensures[frame] forall j in [0, len(dAtA)): (j < result || j >= offset) ==> dAtA[j] == old(dAtA[j])
+//@   assigns dAtA
+
+//@ func Skip
+//@   property C15, C06, C14
+//@   mode bv
+//@   loop 1: invariant 0 <= iNdEx && 0 <= depth && depth <= iNdEx && l == len(dAtA)
+//@   loop 1: invariant depth == 0 ==> iNdEx == 0
+//@   loop 1: invariant depth > 0 ==> VarintVal(dAtA, 0) & 7 == 3
+//@   loop 1: increases iNdEx upto l
+//@   loop 2: unroll 11
+//@   loop 3: unroll 11
+//@   loop 4: unroll 11
+//@   ensures[progress] err == nil ==> n > 0
+//@   ensures[error-zero] err != nil ==> n == 0
+//@   ensures[varint-record] err == nil && VarintVal(dAtA, 0) & 7 == 0 ==> n == VarintEnd(dAtA, VarintEnd(dAtA, 0) + 1) + 1
+//@   ensures[fixed64-record] err == nil && VarintVal(dAtA, 0) & 7 == 1 ==> n == VarintEnd(dAtA, 0) + 1 + 8
+//@   ensures[bytes-record] err == nil && VarintVal(dAtA, 0) & 7 == 2 ==> n == VarintEnd(dAtA, VarintEnd(dAtA, 0) + 1) + 1 + int(VarintVal(dAtA, VarintEnd(dAtA, 0) + 1))
+//@   ensures[fixed32-record] err == nil && VarintVal(dAtA, 0) & 7 == 5 ==> n == VarintEnd(dAtA, 0) + 1 + 4
+//@   ensures[no-other-wiretype] err == nil ==> VarintVal(dAtA, 0) & 7 <= 5 && VarintVal(dAtA, 0) & 7 != 4
+//@   bounded group records (wire types 3/4): safety, progress and termination only; n is not related to the nested record lengths
+
+//@ func SizeInputToOptions
+//@   property C05, C04
+//@   mode bv
+//@   ensures[deterministic] result.Deterministic <==> input.Flags & protoiface.MarshalDeterministic != 0
+//@   ensures[cached] result.UseCachedSize <==> input.Flags & protoiface.MarshalUseCachedSize != 0
+//@   ensures[partial] result.AllowPartial
+
+//@ func MarshalInputToOptions
+//@   property C05, C04
+//@   mode bv
+//@   ensures[deterministic] result.Deterministic <==> input.Flags & protoiface.MarshalDeterministic != 0
+//@   ensures[cached] result.UseCachedSize <==> input.Flags & protoiface.MarshalUseCachedSize != 0
+//@   ensures[partial] result.AllowPartial
+
+//@ func UnmarshalInputToOptions
+//@   property C14, C03
+//@   mode bv
+//@   ensures[discard] result.DiscardUnknown <==> input.Flags & protoiface.UnmarshalDiscardUnknown != 0
+//@   ensures[partial] result.AllowPartial
+//@   ensures[merge] result.Merge
